@@ -27,7 +27,7 @@ fn ev_name(id: u32) -> &'static str {
         10 => "CTRL_PAUSE", 11 => "CTRL_RESUME", 12 => "CTRL_INTERRUPT", 13 => "CTRL_SUSPEND",
         15 => "SCAN_BEGIN", 16 => "SCAN_END", 17 => "THREAD_START", 18 => "THREAD_EXIT", 19 => "SPAWNED",
         20 => "REGISTERED", 21 => "RAISED", 22 => "STW_BEGIN", 23 => "STW_END", 24 => "ENV_WRITE_BEGIN",
-        25 => "ENV_WRITE_END", 26 => "UNPARK", 27 => "HEAP_LOCKED", _ => "?",
+        25 => "ENV_WRITE_END", 26 => "UNPARK", 27 => "HEAP_LOCKED", 28 => "REGISTERING", _ => "?",
     }
 }
 /// events whose `a` is the identity of the CALLING thread
@@ -154,8 +154,10 @@ fn hook(id: u32, a: usize, b: usize, phase: u32) {
                     // not slow every passage down
                     let mut st = c.st.lock().unwrap();
                     let n = st.holds.entry(bi).or_insert(0);
-                    if *n >= bar["max"].as_u64().unwrap_or(3) as usize { continue; }
                     *n += 1;
+                    // `skip`: let the first k passages through; `max`: hold at most that many times
+                    let skip = bar["skip"].as_u64().unwrap_or(0) as usize;
+                    if *n <= skip || *n > skip + bar["max"].as_u64().unwrap_or(3) as usize { continue; }
                 }
                 let deadline = Instant::now() + Duration::from_millis(bar["timeout_ms"].as_u64().unwrap_or(1000));
                 let start_len = { c.st.lock().unwrap().events.len() };
@@ -318,7 +320,7 @@ fn main() {
         }
         m
     };
-    writeln!(w, "{}", json!({"end": outcome, "events": st.events.len(), "irq_sent": irq_sent, "irq_latency_ms": irq_latency_ms.map(|x| x as i64).unwrap_or(-1), "last": last,
+    writeln!(w, "{}", json!({"end": outcome, "events": st.events.len(), "irq_sent": irq_sent, "use_free": v::USE_FREE.load(Ordering::SeqCst), "irq_latency_ms": irq_latency_ms.map(|x| x as i64).unwrap_or(-1), "last": last,
         "dispatches": st.dispatches.iter().map(|(k, v)| (role_name(*k), *v)).collect::<HashMap<_, _>>()})).unwrap();
     w.flush().unwrap();
     std::process::exit(0);
